@@ -10,11 +10,12 @@
    Vocabulary: [ceq eq x y] -- both commands fail, or both succeed with equal results;
    [sd_syntactic], [no_conflicting_prices] -- as in Properties/C05.v (parser-shaped account names; two
    price declarations of one day for the same unordered pair are the same declaration). *)
-From Coq Require Import ZArith List Bool Permutation.
+From Coq Require Import ZArith QArith List Bool Permutation.
 From Knut Require Import Model.Str Model.Dec Model.Date Model.Account Model.Ledger Model.Price Model.Journal
      Model.Check Model.Pipeline Model.Table Model.Report Model.Cli Model.Loader Model.CliSafe Model.Register
      Proofs.OrderProofs Proofs.OrderCmd Proofs.OrderWitness Proofs.TxnOrder
-     Proofs.RegisterOrder Proofs.RegisterTotal Proofs.RegisterMapOrder Proofs.RegisterWitness.
+     Proofs.LedgerProofs Proofs.RegisterOrder Proofs.RegisterTotal Proofs.RegisterMapOrder Proofs.RegisterBalance
+     Proofs.RegisterWitness.
 Import ListNotations.
 Open Scope Z_scope.
 
@@ -125,6 +126,48 @@ Proof.
 Qed.
 Print Assumptions C06_register_map_order_pinned_refuted.
 
+(* ------------------------------------------------------------------ 4. register against balance *)
+
+(* What a register row is, in terms of the balance report.  Query.Into hands every posting p to the
+   collection; `balance` files it under p's own account, `register` under p's OTHER account, and
+   shows the negated amount.  Every booking is a pair (p, p') with p booked on the account p' names
+   as the other side, equal commodity, opposite amounts.  Hence:
+
+   for configurations that agree ([cfgs_agree]: same --from/--to/interval/--last, valuation,
+   mapping, remap; register's --dest and --commodity = balance's --account and --commodity; no
+   --source; commodities shown, i.e. -c or no valuation; balance with --close=false), if both
+   commands succeed, then for every account [row], commodity [c] and period end [col]
+
+     the amounts shown in the register rows of date [col], Dest [row] (by name), commodity [c]
+     -- over all sources and descriptions -- sum to the amount the balance report stores for
+     account [row] and commodity [c] under [col]: the cell of `balance --diff` (Properties/C02.v
+     C02_row_cumulative: without --diff the balance prints running totals of these amounts).
+
+   [col <> 0]: the register files a date that falls after the last period under the zero time (day
+   0, 0001-01-01), the balance under "no date"; Filter removes such days, and no period ends on
+   0001-01-01 unless the journal starts before year 1.  The brief asked for the statement without
+   --dest/--commodity; it holds with them as stated, and fails with --source (that filter looks at
+   the posting's own account, for which the balance has no counterpart). *)
+Theorem C06_register_matches_balance : forall rc bc ds rr rb part,
+  cfgs_agree rc bc -> sd_syntactic ds -> no_conflicting_prices ds ->
+  register_report rc ds = COk rr -> balance_report bc ds = COk (rb, part) ->
+  forall row c col, col <> 0 ->
+    (reg_rows_total rr col row c == rcell row (Some col, Some c) rb)%Q.
+Proof. exact register_matches_balance. Qed.
+Print Assumptions C06_register_matches_balance.
+
+(* the register side as a sum over the dated postings that reach the collection *)
+Theorem C06_register_rows_sum : forall q col row c ds r' ds',
+  Journal.process_days (reg_query_proc q) new_reg_report ds = Journal.ROk (r', ds') ->
+  (reg_rows_total r' col row c == qsum (rq_contrib q col row c) (days_postings ds))%Q.
+Proof.
+  intros q col row c ds r' ds' H.
+  destruct (reg_query_days_sum q col row c ds new_reg_report r' ds' reg_sorted_new H) as [_ E].
+  rewrite E. assert (Z0 : (reg_rows_total new_reg_report col row c == 0)%Q) by reflexivity.
+  rewrite Z0. ring.
+Qed.
+Print Assumptions C06_register_rows_sum.
+
 (* ------------------------------------------------------------------ examples *)
 
 (* the hypotheses are satisfiable: the journal of Properties/C05.v (two commodities, a price change,
@@ -142,3 +185,15 @@ Example C06_register_example_hidden :
   register_text rw_cfg_hidden rw_tc w_journal = CPanic k_nil_account /\
   mapping_flag_ok rw_hide = true /\ mapping_shows rw_hide = false.
 Proof. exact rw_hidden_panics. Qed.
+
+(* register -v CHF -c -a -d --months against balance -v CHF --months --diff --close=false on the same
+   journal: the January rows with Dest Assets:B in USD sum to the balance's January cell (not 0) *)
+Example C06_register_matches_balance_example :
+  cfgs_agree rw_cfg_c rw_bcfg /\
+  exists rr rb part,
+    register_report rw_cfg_c w_journal = COk rr /\ balance_report rw_bcfg w_journal = COk (rb, part) /\
+    In rw_col (end_dates part) /\ rw_col <> 0 /\
+    (reg_rows_total rr rw_col w_A w_usd == rcell w_A (Some rw_col, Some w_usd) rb)%Q /\
+    ~ (reg_rows_total rr rw_col w_A w_usd == 0)%Q /\
+    (reg_rows_total rr rw_col w_I w_chf == rcell w_I (Some rw_col, Some w_chf) rb)%Q.
+Proof. exact (conj rw_agree rw_matches). Qed.
